@@ -7,20 +7,17 @@ Open Scope Z_scope.
 
 (* ---- OPB ---- *)
 
-(* the full claim: an independent reader of the OPB format gets, from the text
-   of ANY CNF or pseudo-Boolean object, the declared number of variables and,
-   constraint by constraint, the coefficients, literals, relation and degree
-   held in memory (a clause is  sum of its literals >= 1) *)
-Definition opb_roundtrip_statement : Prop :=
-  forall h names f, opb_valid f -> opb_printable f ->
-    parse_opb (print_opb h names f) = OOk (numvar f) (constraints f).
-
-(* proved when no header field / variable name contains a line break *)
-Theorem opb_roundtrip_partial : forall h names f,
-  opb_valid f -> opb_printable f -> header_ok h = true -> names_ok names = true ->
+(* print_opb is to_opb_file as it is now (after commit 7278321: every header field
+   and every variable name goes through _within_comment).
+   The full claim: an independent reader of the OPB format gets, from the text
+   of ANY CNF or pseudo-Boolean object, with ANY header and ANY variable names
+   (line breaks included), the declared number of variables and, constraint by
+   constraint, the coefficients, literals, relation and degree held in memory
+   (a clause is  sum of its literals >= 1) *)
+Theorem opb_roundtrip : forall h names f, opb_valid f -> opb_printable f ->
   parse_opb (print_opb h names f) = OOk (numvar f) (constraints f).
 Proof. exact opb_roundtrip_proved. Qed.
-Print Assumptions opb_roundtrip_partial.
+Print Assumptions opb_roundtrip.
 
 (* CNF objects satisfy the hypotheses as soon as their literals are in range *)
 Theorem opb_roundtrip_cnf_hypotheses : forall n F,
@@ -30,9 +27,10 @@ Print Assumptions opb_roundtrip_cnf_hypotheses.
 
 Example opb_roundtrip_nonvacuous :
   let f := FOpb 4 [mkpbc [(2, 3); (1, -1); (3, 4)] PGe 2; mkpbc [] PEq (-1); mkpbc [(1, 1); (2, -2)] PEq 2] in
-  let h := Some [(lit "description", lit "a % * formula")] in
-  opb_valid f /\ opb_printable f /\
-  parse_opb (print_opb h (Some [lit "X"; lit "* y"]) f) = OOk 4 (constraints f) /\
+  let h := Some [(lit "description", lit "a % * formula"); ([ "k"%char; CR; LF; "+"%char ], [ "1"%char; LF; ">"%char; CR; "="%char ])] in
+  let names := Some [lit "X"; lit "* y"; [ "a"%char; LF; "+"%char; "1"%char; " "%char; "x"%char; "1"%char; CR ]] in
+  opb_valid f /\ opb_printable f /\ header_ok h = false /\ names_ok names = false /\
+  parse_opb (print_opb h names f) = OOk 4 (constraints f) /\
   parse_opb (print_opb None None (FCnf 3 [[1; -2]; []; [3]])) =
     OOk 3 [mkpbc [(1, 1); (1, -2)] PGe 1; mkpbc [] PGe 1; mkpbc [(1, 3)] PGe 1].
 Proof.
@@ -45,7 +43,45 @@ Proof.
     unfold pbc_printable. repeat constructor; apply printable_million; vm_compute; discriminate.
 Qed.
 
-Theorem opb_header_newline_refuted : ~ opb_roundtrip_statement.
+(* shape: the first line declares the true counts, then comment lines (first
+   character '*'), then one line per constraint (first character not '*'),
+   for every header and every list of names;
+   opb_comment_lines = the lines of the comment part of the text *)
+Theorem opb_shape : forall h names f,
+  split_lines (print_opb h names f) =
+    opb_spec_line (numvar f) (len (constraints f)) :: opb_comment_lines h names ++
+    map constraint_line (constraints f) /\
+  Forall starts_star (opb_comment_lines h names) /\
+  Forall not_star (map constraint_line (constraints f)).
+Proof. exact opb_shape_proved. Qed.
+Print Assumptions opb_shape.
+
+(* no carriage return is written: a reader with universal newlines sees the same lines *)
+Theorem opb_no_carriage_return : forall h names f, no_cr (print_opb h names f) = true.
+Proof. exact print_opb_no_cr. Qed.
+Print Assumptions opb_no_carriage_return.
+
+(* without line breaks in fields and names the repair changed no byte, and the
+   comment lines are one per header field, "*", one per name, "*" *)
+Theorem print_opb_unchanged : forall h names f,
+  header_ok h = true -> names_ok names = true ->
+  print_opb h names f = print_opb_as_found h names f /\
+  opb_comment_lines h names = opb_comment_lines_as_found h names.
+Proof. exact OpbTextFacts.print_opb_unchanged. Qed.
+Print Assumptions print_opb_unchanged.
+
+(* ---- the OPB writer as it was found (before commit 7278321; defect D4) ---- *)
+Definition opb_roundtrip_as_found_statement : Prop :=
+  forall h names f, opb_valid f -> opb_printable f ->
+    parse_opb (print_opb_as_found h names f) = OOk (numvar f) (constraints f).
+
+Theorem opb_roundtrip_as_found_partial : forall h names f,
+  opb_valid f -> opb_printable f -> header_ok h = true -> names_ok names = true ->
+  parse_opb (print_opb_as_found h names f) = OOk (numvar f) (constraints f).
+Proof. exact opb_roundtrip_as_found_proved. Qed.
+Print Assumptions opb_roundtrip_as_found_partial.
+
+Theorem opb_header_newline_refuted : ~ opb_roundtrip_as_found_statement.
 Proof.
   intros H.
   specialize (H (Some [(lit "description", [ "x"%char; LF; "y"%char ])]) None (FCnf 1 [[1]])).
@@ -57,16 +93,23 @@ Proof.
 Qed.
 Print Assumptions opb_header_newline_refuted.
 
-(* shape: the first line declares the true counts, then comment lines (first
-   character '*'), then one line per constraint (first character not '*') *)
-Theorem opb_shape_partial : forall h names f, header_ok h = true -> names_ok names = true ->
-  split_lines (print_opb h names f) =
-    opb_spec_line (numvar f) (len (constraints f)) :: opb_comment_lines h names ++
+Theorem opb_shape_as_found_partial : forall h names f, header_ok h = true -> names_ok names = true ->
+  split_lines (print_opb_as_found h names f) =
+    opb_spec_line (numvar f) (len (constraints f)) :: opb_comment_lines_as_found h names ++
     map constraint_line (constraints f) /\
-  Forall starts_star (opb_comment_lines h names) /\
+  Forall starts_star (opb_comment_lines_as_found h names) /\
   Forall not_star (map constraint_line (constraints f)).
-Proof. exact opb_shape_proved. Qed.
-Print Assumptions opb_shape_partial.
+Proof. exact opb_shape_as_found_proved. Qed.
+Print Assumptions opb_shape_as_found_partial.
+
+(* a name that continues with something that looks like a constraint used to become
+   a constraint line of its own (the reader then finds one constraint too many);
+   now it stays inside the comment *)
+Theorem opb_name_newline_refuted : exists names,
+  parse_opb (print_opb_as_found None (Some names) (FCnf 1 [])) = OErr OWrongCount 0 /\
+  parse_opb (print_opb None (Some names) (FCnf 1 [])) = OOk 1 [].
+Proof. exists [[ "a"%char; LF ] ++ lit "+1 x1 >= 1"]. vm_compute. auto. Qed.
+Print Assumptions opb_name_newline_refuted.
 
 Theorem opb_first_line_counts : forall n m, 0 <= n -> 0 <= m -> small n -> small m ->
   parse_opb_spec (opb_spec_line n m) = Some (n, m).
